@@ -252,7 +252,8 @@ Resolve(r, o, leaf) ==
        /\ sobjs' = [sobjs EXCEPT ![r] = @ \cup StageObjs(r, new)]
     /\ cnt' = Tick
     /\ act' = [n |-> "Resolve", r |-> r, o |-> o, leaf |-> leaf]
-    /\ sched' = Append(sched, [op |-> "resolve_rev", r |-> RIndex(r), o |-> o, leaf |-> leaf])
+    /\ sched' = Append(sched, [op |-> "resolve_by", r |-> RIndex(r), o |-> o, idx |-> Len(leaf), k |-> Last(leaf).k,
+                                v |-> Last(leaf).v, ord |-> Last(leaf).o])
     /\ UNCHANGED <<store, known, applied, apacks, up>>
 
 -----------------------------------------------------------------------------
@@ -263,7 +264,7 @@ AutoResolved(r) ==       \* staged revisions and objects after step 1
     IN [st |-> [o \in Obj |-> staged[r][o] \cup new[o]],
         so |-> sobjs[r] \cup StageObjs(r, UNION {new[o] : o \in Obj})]
 
-PackItem(objs) == [name |-> <<"p", objs>>, kind |-> "pack", ok |-> TRUE, idx |-> 0, parents |-> {}, packs |-> {},
+PackItem(r, objs) == [name |-> <<"p", r, cnt.blocks + 1>>, kind |-> "pack", ok |-> TRUE, idx |-> 0, parents |-> {}, packs |-> {},
                    changes |-> {}, objs |-> objs]
 BlockItem(r, st, packnames) ==
     LET hs == Heads(r)
@@ -280,7 +281,7 @@ CanCommit(r) == up[r] /\ Budget /\ HasStaging(r) /\ cnt.blocks < MaxBlocks
 CommitOutcome(r, nw, mode) ==
     LET ar == AutoResolved(r)
         haspack == ar.so # {}
-        pack == PackItem(ar.so)
+        pack == PackItem(r, ar.so)
         packnames == IF haspack THEN {pack.name} ELSE {}
         block == BlockItem(r, ar.st, packnames)
         writes == IF "block_before_pack" \in Bug
@@ -315,18 +316,18 @@ CommitOK(r) ==
     /\ CanCommit(r)
     /\ \E nw \in 1..2 : CommitOutcome(r, nw, "ok")
     /\ cnt' = Bump("blocks")
-    /\ sched' = Append(sched, [op |-> "commit", r |-> RIndex(r)])
+    /\ sched' = Append(sched, [op |-> "commit", r |-> RIndex(r), bn |-> cnt.blocks + 1])
 
 CommitCrash(r) ==
     /\ "crash" \in Feat /\ CanCommit(r) /\ cnt.crash < MaxCrash
     /\ \E nw \in 0..2 : /\ CommitOutcome(r, nw, "crash")
-                        /\ sched' = Append(sched, [op |-> "commit", r |-> RIndex(r), crash_at |-> nw])
+                        /\ sched' = Append(sched, [op |-> "commit", r |-> RIndex(r), bn |-> cnt.blocks + 1, crash_at |-> nw])
     /\ cnt' = [Bump("crash") EXCEPT !.blocks = @ + 1]
 
 CommitFail(r) ==
     /\ "fail" \in Feat /\ CanCommit(r) /\ cnt.fail < MaxFail
     /\ \E nw \in 0..1 : /\ CommitOutcome(r, nw, "fail")
-                        /\ sched' = Append(sched, [op |-> "commit", r |-> RIndex(r), fail |-> <<nw + 1>>])
+                        /\ sched' = Append(sched, [op |-> "commit", r |-> RIndex(r), bn |-> cnt.blocks + 1, fail |-> <<nw + 1>>])
     /\ cnt' = [Bump("fail") EXCEPT !.blocks = @ + 1]
 
 EmptyCommit(r) ==       \* nothing staged: returns None, writes nothing
